@@ -1,4 +1,5 @@
 import Rbp.Proofs.Index
+import Rbp.Proofs.EndToEnd
 /-!
 # C04 — only active-chain blocks are delivered; stale and header-only records never are
 Stated for the index as the repaired code builds it (records with data and no FAILED bit, keyed by hash; tip = highest
@@ -35,6 +36,59 @@ theorem competitors_invisible (kvs₁ kvs₂ : List (W.Bytes × W.Bytes)) (r₁ 
   obtain ⟨i₁, e₁, l₁⟩ := buildIndex_active kvs₁ r₁ A T h₁ c₁ hh hv p₁
   obtain ⟨i₂, e₂, l₂⟩ := buildIndex_active kvs₂ r₂ A T h₂ c₂ hh hv p₂
   exact ⟨i₁, i₂, e₁, e₂, fun h => by rw [l₁, l₂]⟩
+
+open CB W in
+/-- **whole run, from the bytes of the data directory.**  The index key/value pairs come in any order and may contain
+    anything besides the active chain: header-only records, stale siblings and failed blocks with data, reorged-out fully
+    validated branches below the tip, records under other keys.  If the keys are pairwise distinct, every `b` record is one
+    Core could have written, and the active chain `A 0 … A T` is among them (record `k` at height `k`, with data, not failed,
+    linked by prev-hash, root's parent not indexed, tip fully validated, every other fully validated record with data lower
+    than `T`), and the blk files hold — at the file/offset each ACTIVE record names — the length prefix and the encoding of
+    a well-formed block, then for every range, callback, key and `--verify` setting (the chain being consistent when it is
+    set): exit 0, exactly the heights `start..min(end,T)` delivered, and files and stdout are the callback's function of the
+    active chain's blocks.  No competitor block is ever read: nothing is assumed about what their records point to. -/
+theorem active_chain_run (o : Opts) (key : Option Bytes) (kvs : List (Bytes × Bytes)) (files : List BlkFile) (coin : Coin)
+    (hcoin : coinOf o.coin = some coin) (hkey : key ≠ some [])
+    -- the index: distinct keys, decodable `b` records, an active chain among them
+    (hnd : (kvs.map (·.1)).Nodup)
+    (hdec : ∀ kv ∈ kvs, kv.1 ≠ [] ∧ (kv.1.head? = some 0x62 →
+      ∃ hash r, kv = (0x62 :: hash, Run.IndexRec.enc r) ∧ hash.length = 32 ∧ r.ok))
+    (A : Nat → Bytes × Run.IndexRec) (T : Nat)
+    (hAok : ∀ k, k ≤ T → (A k).1.length = 32 ∧ (A k).2.ok)
+    (hmem : ∀ k, k ≤ T → (0x62 :: (A k).1, (A k).2.enc) ∈ kvs)
+    (hh : ∀ k, k ≤ T → (A k).2.height = k)
+    (hpass : ∀ k, k ≤ T → passes ((A k).2.toRec (A k).1) = true)
+    (hlink : ∀ k, k < T → (A (k + 1)).2.prev = (A k).1)
+    (hinj : ∀ i j, i ≤ T → j ≤ T → (A i).1 = (A j).1 → i = j)
+    (hroot : ∀ kv ∈ kvs, kv.1 ≠ 0x62 :: (A 0).2.prev)
+    (hv : validScripts ((A T).2.toRec (A T).1) = true)
+    (hcomp : ∀ hash r, (0x62 :: hash, Run.IndexRec.enc r) ∈ kvs → hash.length = 32 → r.ok → passes (r.toRec hash) = true →
+      validScripts (r.toRec hash) = true → r.toRec hash = (A T).2.toRec (A T).1 ∨ r.height < T)
+    -- the range
+    (E : Nat) (hE : E = (match o.stop with | some e => min e T | none => T)) (hstart : o.start ≤ E)
+    -- the blk files: every active block of the range is stored where its record says
+    (sz : Nat → Nat) (blk : Nat → W.Block)
+    (hplaced : ∀ k, o.start ≤ k → k ≤ E →
+      ∃ f rest, ((files.filterMap fun f => (parseBlkIndex f.name).map fun n => (n, f)).find?
+          (·.1 == ((A k).2.toRec (A k).1).file)).map (·.2) = some f ∧
+        4 ≤ ((A k).2.toRec (A k).1).off ∧
+        unxor key (((A k).2.toRec (A k).1).off - 4) (bytesFrom f (((A k).2.toRec (A k).1).off - 4)) =
+          toLE 4 (sz k) ++ (blk k).enc ++ rest ∧
+        sz k < 256 ^ 4 ∧ (blk k).ok coin.auxpow)
+    -- with --verify: the stored blocks form a consistent chain (merkle roots, prev-hash links to the indexed hashes, genesis)
+    (hver : o.verify = true → ∀ k, o.start ≤ k → k ≤ E →
+      M.rootRust _root_.A.sha256d (txids (blk k).toR) = some (blk k).toR.header.merkle ∧
+      (k = 0 → blockHash (blk k).toR = coin.genesis) ∧ (k > 0 → (blk k).toR.header.prev = (A (k - 1)).1))
+    -- the callback's own u64 sums stay in range (vacuous for csvdump, unspentcsvdump, opreturn)
+    (hnp : callbackPanics o coin.version
+      ((List.range' o.start (E + 1 - o.start)).map (fun k => (⟨k, sz k, (blk k).toR⟩ : EBlock))) = false) :
+    (run o key kvs files).exit = 0 ∧ (run o key kvs files).delivered = List.range' o.start (E + 1 - o.start) ∧
+    (run o key kvs files).files = (callbackOut o coin.version E
+      ((List.range' o.start (E + 1 - o.start)).map (fun k => (⟨k, sz k, (blk k).toR⟩ : EBlock)))).1 ∧
+    (run o key kvs files).stdout = (callbackOut o coin.version E
+      ((List.range' o.start (E + 1 - o.start)).map (fun k => (⟨k, sz k, (blk k).toR⟩ : EBlock)))).2 :=
+  Run.run_of_directory o key kvs files coin hcoin hkey hnd hdec A T hAok hmem hh hpass hlink hinj hroot hv hcomp E hE hstart sz blk
+    hplaced hver hnp
 
 /-- records without block data or with a FAILED bit never enter the table: the status filter, stated outright -/
 theorem filter_spec (r : Rec) : passes r = true ↔ (r.status &&& 8 > 0 ∧ r.status &&& 96 = 0) := by
